@@ -279,7 +279,9 @@ pub fn check(bc: &BCase, st: &mut Stats) -> CheckResult {
     quiet.frozen = true;
     let mut refused = 0;
     let mut served = 0;
-    for (i, op) in bc.ops.iter().enumerate() {
+    // with a kill-and-restart, the last third of the requests is spoken to the restarted server
+    let cut = if bc.kill_restart { bc.ops.len() - bc.ops.len() / 3 } else { bc.ops.len() };
+    for (i, op) in bc.ops.iter().enumerate().take(cut) {
         if matches!(op, Op::Reopen) {
             continue;
         }
@@ -345,6 +347,32 @@ pub fn check(bc: &BCase, st: &mut Stats) -> CheckResult {
                 o => o,
             })?;
         }
+        // and the history continues on the restarted server as if nothing had happened
+        let mut or3 = Oracles::default();
+        or3.c02 = true;
+        or3.c12 = true;
+        or3.c11 = true;
+        h2.or = or3;
+        for (i, op) in bc.ops.iter().enumerate().skip(cut) {
+            if matches!(op, Op::Reopen) {
+                continue;
+            }
+            let c = h2.clients[op.client().unwrap() as usize % 4];
+            if !listed(c) {
+                continue;
+            }
+            h2.step(i, op, &mut quiet).map_err(|f| match f {
+                Fail::Violation(m) => Fail::Violation(format!("{what}: after killing the server and restarting it on the same data directory, request {i} ({op:?}): {m}")),
+                o => o,
+            })?;
+        }
+        for c in clients.iter().copied().filter(|c| listed(*c)) {
+            h2.c01_walk(6000, c, &mut quiet).map_err(|f| match f {
+                Fail::Violation(m) => Fail::Violation(format!("{what}: after a restart and further requests: {m}")),
+                o => o,
+            })?;
+        }
+        let model = h2.model.clone();
         drop(h2);
         drop(proc2);
         // a start on a different directory serves nothing of it
